@@ -56,6 +56,12 @@ def pos(x):
 
 
 @predicate
+def makes_real_instance(x):
+    """user code that constructs a @symbol object while a result is computed: true iff it got a real instance"""
+    return type(B(x.n)) is B
+
+
+@predicate
 def posk(x, k=0):
     """a parameter with a default, passed positionally, by keyword or not at all"""
     return x.n > k
@@ -84,7 +90,7 @@ def pos_or_boom(x):
     return x.n > 0
 
 
-OPS_ENTER = ["enter_q", "enter_r", "enter_rq", "enter_qq", "with_query", "reenter_open_query"]
+OPS_ENTER = ["enter_q", "enter_r", "enter_rq", "enter_qq", "with_query", "reenter_open_query", "with_pooled"]
 
 
 def plan(tier, seed):
@@ -96,7 +102,7 @@ def floors(tier):
     return {"distinct_nontrivial": 800, "observations": 20000, "op:enter_q": 500, "op:enter_r": 500, "op:enter_rq": 300,
             "op:enter_qq": 300, "op:with_query": 300, "op:leave": 1000, "op:raise_leave": 300, "op:mkit": 1000,
             "op:next": 1000, "op:close": 300, "op:drop": 300, "op:exhaust": 300, "op:the_eval": 500, "op:an_list": 500, "op:an_raise": 300, "op:the_multi_sub": 300, "op:an_plain_method": 300, "op:block_term_then_rule": 300,
-            "op:reenter_open_query": 300, "thread_probes": 3000, "generator_domain_probes": 300,
+            "op:reenter_open_query": 300, "op:an_many_rows": 200, "cls:blocks_nested_four_or_five_deep_reopened_under_another_outer_block": 300, "thread_probes": 3000, "generator_domain_probes": 300,
             "cls:iterator_op_at_other_depth": 800}
 
 
@@ -105,11 +111,26 @@ def cases(spec, ctx):
         rng = ctx.rng(spec["sub"], i)
         ops = []
         depth, live = 0, 0
+        if i % 20 == 13:
+            # SIZE: blocks nested four or five deep over a history of 20-30 operations, the same three or four (long-lived) query
+            # objects opened again under ANOTHER outermost block, results computed in the innermost block both times
+            k = rng.choice([3, 3, 4])
+            for outer in rng.sample(["enter_rq", "enter_qq", "with_query", "enter_rq"], 2):
+                ops.append([outer])
+                ops += [["with_pooled", j] for j in range(k)]
+                ops += [[rng.choice(["an_list", "the_eval", "an_plain_method"])] for _ in range(rng.randint(1, 2))]
+                ops += [["leave"]] * k
+                ops += [[rng.choice(["an_list", "block_term_then_rule"])]]
+                ops.append(["leave"])
+            yield {"ops": ops, "deep": True}
+            continue
         for _ in range(rng.randint(6, 16)):
             extra_ops = ["the_eval", "an_list", "an_raise", "the_multi_sub", "an_plain_method", "block_term_then_rule"]
+            if rng.random() < 0.04:
+                extra_ops = extra_ops + ["an_many_rows"] * 6
             choices = ["mkit"] + extra_ops if live < 3 else list(extra_ops)
             if depth < 4:
-                choices += OPS_ENTER
+                choices += [o_ for o_ in OPS_ENTER if o_ != "with_pooled"]
             if depth:
                 choices += ["leave", "leave", "leave", "raise_leave"]
             if live:
@@ -124,7 +145,7 @@ def cases(spec, ctx):
             elif op == "mkit":
                 live += 1
                 ops.append([op])
-            elif op in ("the_eval", "an_list", "an_raise", "the_multi_sub", "an_plain_method", "block_term_then_rule"):
+            elif op in ("the_eval", "an_list", "an_raise", "the_multi_sub", "an_plain_method", "block_term_then_rule", "an_many_rows"):
                 ops.append([op])
             else:
                 idx = rng.randrange(live)
@@ -261,6 +282,10 @@ def check_case(case, ctx):
         return None
 
     fail = None
+    pool_qs = []
+    many_pool = [B(k_ + 1) for k_ in range(340)] if any(o[0] == "an_many_rows" for o in case["ops"]) else []     # (built outside every block)
+    if case.get("deep"):
+        ctx.cls("cls:blocks_nested_four_or_five_deep_reopened_under_another_outer_block")
     try:
         for step, op in enumerate(case["ops"]):
             name = op[0]
@@ -285,6 +310,14 @@ def check_case(case, ctx):
                 cm = mkq()
                 cm.__enter__()
                 stack.append((None, True, cm))
+            elif name == "with_pooled":
+                # one of a few long-lived query objects of the session, opened as a plain `with query:` block (again, if it was
+                # open and left before)
+                while len(pool_qs) <= op[1]:
+                    pool_qs.append(mkq())
+                cm = pool_qs[op[1]]
+                cm.__enter__()
+                stack.append((None, True, cm))
             elif name == "reenter_open_query":
                 # the SAME expression object entered again while it is already open (a helper that opens `with query:`
                 # or rule_mode(query) for a query its caller has open)
@@ -305,6 +338,17 @@ def check_case(case, ctx):
                 for o in mkq().evaluate():
                     if type(o) is not B:
                         fail = {"what": "RESULT_NOT_A_REAL_INSTANCE", "observed": type(o).__name__}
+            elif name == "an_many_rows":
+                # SIZE: an evaluation that hands out 150-320 results, each computed by user code that constructs a @symbol object
+                nb = 150 + 17 * (step % 11)
+                many = many_pool[:nb]
+                with symbolic_mode():
+                    x5 = let(B, many)
+                    mq = an(entity(x5, x5.twin().n > 0, makes_real_instance(x5)))
+                got_m = [getattr(o, "n", None) for o in mq.evaluate()]
+                if got_m != list(range(1, nb + 1)):
+                    fail = {"what": "USER_CODE_SAW_SYMBOLIC_MODE_DURING_A_LONG_EVALUATION", "rows": len(got_m), "expected_rows": nb,
+                            "first_difference": next((i_ for i_, (a_, b_) in enumerate(zip(got_m, range(1, nb + 1))) if a_ != b_), min(len(got_m), nb))}
             elif name == "an_plain_method":
                 # a query WITHOUT any predicate term whose condition reaches user code that constructs a @symbol object
                 with symbolic_mode():
